@@ -11,12 +11,12 @@ import (
 
 // LoopRes is the verdict on one natural loop.
 type LoopRes struct {
-	Desc      string
-	Pos       token.Pos
-	Status    Status
-	Why       string
+	Desc       string
+	Pos        token.Pos
+	Status     Status
+	Why        string
 	InputBound bool // the bound depends on an input symbol
-	Depth     int  // nesting depth (1 = outermost)
+	Depth      int  // nesting depth (1 = outermost)
 }
 
 type loop struct {
